@@ -402,6 +402,15 @@ package mobius
 //@   before call (hotline.AccountManager).Update assert !isnil(pw) && !(len(pw) == 1 && pw[0] == 0) ==> arg1.Password == callres("hotline.HashAndSalt#2")
 //@   before call (hotline.AccountManager).Update assert arg2 == arg1.Login && arg1.Login == callres("(hotline.AccountManager).Get").Login
 
+// C16: an edit reaches the connections logged in under the account: by the time the change is
+// announced, the bitmap that connection's authorisation decisions use is the edited account's --
+// the same bits that were just sent to it (field 110 carries the request's bitmap) and written to
+// the file.
+//@ func HandleSetUser(cc *hotline.ClientConn, t *hotline.Transaction) (res []hotline.Transaction)
+//@   property C16
+//@   before store Account.Access assert target == c.Account && val == account.Access
+//@   before call hotline.NewField#1 assert arg0[0] == 0 && arg0[1] == 110 && same(arg1, reqdata(0, 110))
+
 // ---------------------------------------------------------------------------------
 // C18: creating a category or bundle never replaces an existing item (which would discard its
 // articles): when the name is taken at that path the call fails and the item is untouched; when it
@@ -458,6 +467,9 @@ package mobius
 //@   before call strings.ReplaceAll#1 assert arg1 == "\n" && arg2 == "\r"
 //@   before call strings.ReplaceAll#2 assert arg0 == callres("strings.ReplaceAll#1") && arg1 == "\r\n" && arg2 == "\r"
 //@   ensures err == nil ==> bytes(f.data) == bytes(callres("strings.ReplaceAll#2"))
+// a reload replaces the text only: a client that is being served (between two Read calls) is not
+// sent back to the start of the text
+//@   ensures f.readOffset == old(f.readOffset)
 
 //@ func (a *Agreement) Reload() (err error)
 //@   property C19
@@ -465,6 +477,7 @@ package mobius
 //@   before call strings.ReplaceAll#1 assert arg1 == "\n" && arg2 == a.lineEndings
 //@   before call strings.ReplaceAll#2 assert arg0 == callres("strings.ReplaceAll#1") && arg1 == "\r\n" && arg2 == a.lineEndings
 //@   ensures err == nil ==> bytes(a.data) == bytes(callres("strings.ReplaceAll#2"))
+//@   ensures a.readOffset == old(a.readOffset)
 
 //@ func NewAgreement(path string, lineEndings string) (r *Agreement, err error)
 //@   property C19
